@@ -20,7 +20,8 @@ ASSUMPTIONS = ["strictness is required only when one tick lasts >= 2 us at every
 
 def required(tier):
     return ["pair_straddles_1_tempo_change", "pair_straddles>=3_tempo_changes", "strict_eligible_map", "map_exactly_at_strict_bound",
-            "non_eligible_equal_consecutive_times_seen", "cross_track_equal_tick_pairs", "note_end_vs_start"]
+            "non_eligible_equal_consecutive_times_seen", "cross_track_equal_tick_pairs", "note_end_vs_start", "chart_with_anchor_lines",
+            "chart_with_nonzero_offset"]
 
 
 def shards(tier, seed):
@@ -98,7 +99,20 @@ def run_map(rec, rng, i):
     ev_ticks = sorted(set(rng.sample(ticks, min(len(ticks), 14))))
     groups = [{"tick": t, "lanes": {str(j % 5): min(rng.choice([0, 1, 3, 100]), max(0, hz - t))}, "open": None, "forced": False, "tap": False}
               for j, t in enumerate(ev_ticks)]
-    truth = {"resolution": res, "tempos": tempos, "timesigs": [[0, 4, None]] + [[t, 3, None] for t in ev_ticks[1:4]],
+    md = {"resolution": res}
+    if rng.random() < 0.6:
+        md.update({"offset": rng.choice([0, 1, 2, 30, 99999]), "preview_start": rng.choice([0, 5, 30]), "preview_end": rng.choice([0, 60]),
+                   "difficulty": rng.choice([0, 3])})
+    anchors = []
+    if rng.random() < 0.5:
+        for t in sorted(set(rng.choice(tm.ticks + ev_ticks) for _ in range(rng.choice([1, 2, 5])))):
+            exact_us = int(tm.exact(t))
+            anchors.append([t, rng.choice([exact_us, max(0, exact_us - rng.choice([1, 1000, 10**6])), exact_us + rng.choice([1, 10**6]), 0])])
+        rec.cls("chart_with_anchor_lines")
+    if md.get("offset"):
+        rec.cls("chart_with_nonzero_offset")
+    truth = {"resolution": res, "metadata": md, "anchors": anchors, "tempos": tempos,
+             "timesigs": [[0, 4, None]] + [[t, 3, None] for t in ev_ticks[1:4]],
              "globals": [[t, "text", "x"] for t in ev_ticks],
              "tracks": {"GUITAR/EXPERT": {"groups": groups, "phrases": [[t, 1] for t in ev_ticks], "tevents": [[t, "e"] for t in ev_ticks]},
                         "BASS/EASY": {"groups": [dict(g) for g in groups[::2]], "phrases": [], "tevents": [[t, "f"] for t in ev_ticks[::3]]}}}
